@@ -10,7 +10,14 @@ them (`~k`), the transition system is genuinely nondeterministic (was the connec
 stream accepted before the next operation hit?): those choices — and only those — are resolved by
 what was observed (`Oracle`), everything else is predicted.
 
-The verdict is computed from the script and the observation alone, with `Spec.Shutdown`.
+Virtual time (whole seconds) passes at `W<secs>` / `T` steps only: every connection accepted at
+least `max_connection_age` ago gets its `ageTick`, every call whose handler was invoked at least
+`Server::timeout` (`t<secs>` in the case's configuration) ago its `deadlineTick`; `expire` is then
+one of the server's own steps (tried after `produce`: `GrpcTimeout` polls the handler first).
+
+The verdict is computed from the script and the observation alone, with `Spec.Shutdown`; whether a
+call's true outcome is the server's "Timeout expired" (`CallView.timedOut`) is decided from the time
+steps between the call's issue and the release of its first handler phase.
 -/
 namespace DriverC13
 open Proto Shutdown
@@ -80,6 +87,10 @@ def parseStep (tok : String) : Option Step :=
 structure Script where
   graceful : Bool
   age : Bool
+  /-- `Server::timeout`, seconds.  (The `k<secs>` keepalive and `l<n>` limit settings of a case
+  are parsed and ignored: HTTP/2 and TCP keepalive against a live peer, and a concurrency / stream
+  limit above the number of calls, are predicted to be invisible.) -/
+  timeout : Option Nat := none
   steps : List Step
   /-- loopback TCP through `serve_with_shutdown(addr, signal)` / `serve(addr)`: connections are
   observed from their client ends, the open count at resolution is not observable -/
@@ -88,10 +99,27 @@ structure Script where
   `ServerIoStream`'s handshake set before the accept loop sees them -/
   tls : Bool := false
 
+/-- an optional configuration token `<letter><digits>` at the head of `rest` -/
+def optTok (letter : Char) (rest : List String) : Option Nat × List String :=
+  match rest with
+  | tok :: more =>
+    match tok.toList with
+    | ch :: ds =>
+      if ch == letter && !ds.isEmpty && ds.all Char.isDigit then
+        (natOf ds, more)
+      else (none, rest)
+    | [] => (none, rest)
+  | [] => (none, rest)
+
 def parseScript (case : List String) : Option Script :=
   match case with
-  | tag :: m :: _b :: _p :: a :: rest =>
+  | tag :: m :: _b :: _p :: a :: rest0 =>
     if !tag.startsWith "sc" then none else
+    -- optional configuration tokens, in this order: t<secs> k<secs> l<n>
+    let (tmo, rest1) := optTok 't' rest0
+    let (_ka, rest2) := optTok 'k' rest1
+    let (_lim, rest) := optTok 'l' rest2
+    if tmo == some 0 then none else
     let g := match m with
       | "g" => some (true, false, false) | "n" => some (false, false, false)
       | "t" => some (true, true, false) | "u" => some (false, true, false)
@@ -107,7 +135,7 @@ def parseScript (case : List String) : Option Script :=
       -- stalled / non-TLS clients only make sense against a TLS server
       else if !tls && steps.any (fun st => match st.op with
           | .connStalled | .connBad | .hello _ => true | _ => false) then none
-      else some { graceful := g, age := ag, steps := steps, tcp := tcp, tls := tls }
+      else some { graceful := g, age := ag, timeout := tmo, steps := steps, tcp := tcp, tls := tls }
     | _, _, _ => none
   | _ => none
 
@@ -123,6 +151,7 @@ structure CallObs where
   hdr : Option Bool      -- none = not received, some false = wrong
   msgs : Option Nat      -- none = a wrong message was seen
   fin : Option (Nat × Bool)  -- status code, message text as sent
+  expired : Bool := false    -- the status is the server's CANCELLED "Timeout expired"
   ns : Bool
   doneAt : Option Nat
 deriving Repr
@@ -159,7 +188,7 @@ def parseObs (obs : List String) : Option Obs :=
             | [_, st, h, m, f, d] =>
               let hdr := if h = "0" then none else some (h == "1")
               let fin : Option (Nat × Bool) :=
-                if f = "-" ∨ f = "ns" then none
+                if f = "-" ∨ f = "ns" ∨ f = "s1T" then none
                 else
                   let body := (f.drop 1).toString
                   let good := !body.endsWith "!"
@@ -167,7 +196,8 @@ def parseObs (obs : List String) : Option Obs :=
                   digits.toNat?.map fun c => (c, good)
               match idx? d with
               | some d => some (cs, ks ++ [{ started := st == "1", hdr := hdr, msgs := m.toNat?,
-                                             fin := fin, ns := f == "ns", doneAt := d }])
+                                             fin := fin, expired := f == "s1T", ns := f == "ns",
+                                             doneAt := d }])
               | none => none
             | _ => none
           | _ => none) (some ([], []))
@@ -197,6 +227,8 @@ structure Sim where
   tls : Bool := false            -- the server is configured with TLS
   now : Nat := 0                 -- virtual clock, whole seconds
   accAt : List (Option Nat) := []  -- virtual time at which connection c was accepted
+  startAt : List (Option Nat) := []  -- virtual time at which the handler of call k was invoked
+  timeout : Option Nat := none     -- `Server::timeout`, seconds
 
 def Sim.apply (m : Sim) (l : Label) : Sim :=
   match step m.st l with
@@ -227,6 +259,8 @@ def Sim.candidates (m : Sim) : List Label :=
   m.eager
   ++ (callIdx m.st).map (fun cj => Label.produce cj.1 cj.2)
   ++ (callIdx m.st).map (fun cj => Label.deliver cj.1 cj.2)
+  -- `GrpcTimeout` polls the handler's future first: `expire` only when `produce` is not enabled
+  ++ (callIdx m.st).map (fun cj => Label.expire cj.1 cj.2)
   ++ (connIdx m.st).map Label.tlsFail
   ++ [Label.loopSig, Label.loopErr, Label.loopEnd, Label.afterLoop]
   ++ (connIdx m.st).flatMap (fun c =>
@@ -266,8 +300,16 @@ def Sim.callDone (m : Sim) (cj : Nat × Nat) : Bool :=
     | none => false
   | none => false
 
+def Sim.callStarted (m : Sim) (cj : Nat × Nat) : Bool :=
+  match m.st.conns[cj.1]? with
+  | some cn => match cn.calls[cj.2]? with
+    | some k => k.started
+    | none => false
+  | none => false
+
 def Sim.record (m : Sim) : Sim :=
   { m with
+    startAt := stamp m.now m.startAt (m.callMap.map m.callStarted)
     closedAt := stamp m.t m.closedAt (m.st.conns.map fun cn => cn.closed)
     accAt := stamp m.now m.accAt (m.st.conns.map fun cn => cn.accepted)
     doneAt := stamp m.t m.doneAt (m.callMap.map m.callDone)
@@ -314,19 +356,28 @@ def Sim.doOp (m : Sim) : Op → Sim
     -- virtual time passes: the age timer of every connection accepted at least `ageLimit`
     -- seconds ago has elapsed (no-op unless `max_connection_age` is configured)
     let m := { m with now := m.now + d }
-    (connIdx m.st).foldl (fun m c =>
+    let m := (connIdx m.st).foldl (fun m c =>
       match m.accAt.getD c none with
       | some t => if m.now - t ≥ ageLimit then m.apply (.ageTick c) else m
       | none => m) m
+    -- … and the `GrpcTimeout` sleep of every call whose handler was invoked at least
+    -- `Server::timeout` seconds ago (no-op unless a timeout is configured)
+    match m.timeout with
+    | none => m
+    | some lim =>
+      (m.callMap.zipIdx).foldl (fun m (cj, i) =>
+        match m.startAt.getD i none with
+        | some t => if m.now - t ≥ lim then m.apply (.deadlineTick cj.1 cj.2) else m
+        | none => m) m
 
 def Sim.doStep (m : Sim) (st : Step) : Sim :=
   let m := m.doOp st.op
   if st.settled then m.settle else (m.runEager (fuelOf m)).record
 
 def simulate (sc : Script) (biased : Bool) (accW startW : List Bool) : Sim :=
-  let m0 : Sim := { st := init sc.graceful biased sc.age, t := 0, closedAt := [], doneAt := [],
-                    resolvedAt := none, callMap := [], accW := accW, startW := startW,
-                    tls := sc.tls }
+  let m0 : Sim := { st := init sc.graceful biased sc.age sc.timeout.isSome, t := 0, closedAt := [],
+                    doneAt := [], resolvedAt := none, callMap := [], accW := accW, startW := startW,
+                    tls := sc.tls, timeout := sc.timeout }
   let m := sc.steps.foldl Sim.doStep m0
   -- drain: every client completes its request stream, every handler runs freely
   let m := m.callMap.foldl (fun m cj =>
@@ -358,8 +409,9 @@ def render (m : Sim) (tcp : Bool := false) : String :=
           let got := k.sent.take k.recv
           let hdr := if got.contains .hdr then 1 else 0
           let n := got.countP fun it => match it with | .msg _ => true | _ => false
-          let fin := match got.findSome? fun it => match it with | .status c => some c | _ => none with
-            | some c => s!"s{c}"
+          let fin := match got.findSome? fun it => match it with
+              | .status c => some s!"s{c}" | .expired => some "s1T" | _ => none with
+            | some f => f
             | none => "-"
           let done := if fin == "-" then none else m.doneAt.getD i none
           s!"k{i}:1:{hdr}:{n}:{fin}:{showIdx done}"
@@ -374,6 +426,7 @@ def gotOf (k : CallObs) : List Out :=
   (match k.hdr with | none => [] | some true => [Out.hdr] | some false => [Out.status 999999])
   ++ (match k.msgs with | some n => msgs 0 n | none => [Out.status 999998])
   ++ (match k.fin with | none => [] | some (c, true) => [Out.status c] | some (_, false) => [Out.status 999997])
+  ++ (if k.expired then [Out.expired] else [])
 
 /-- group number of every step: steps not separated by a quiescent point share a group -/
 def groups (steps : List Step) : List Nat :=
@@ -394,6 +447,9 @@ structure CallInfo where
   plan : List Spec.Shutdown.Out
   abandoned : Bool
   mustStart : Bool
+  /-- a request timeout is configured and at least that much time passes in the script between
+  the step that issues the call and the step that lets its handler produce the response head -/
+  deadlinePassed : Bool := false
 
 def analyse (sc : Script) : List ConnInfo × List CallInfo :=
   let gs := groups sc.steps
@@ -409,6 +465,22 @@ def analyse (sc : Script) : List ConnInfo × List CallInfo :=
     -- a client that does not (yet) complete a TLS handshake need not be accepted
     | .connStalled | .connBad => some { afterSignal := afterSig, mustAccept := false, group := g }
     | _ => none
+  -- virtual time (whole seconds) that has passed before step i
+  let timeBefore (i : Nat) : Nat := ((sc.steps.take i).filterMap fun s =>
+    match s.op with | .wait d => some d | _ => none).foldl (· + ·) 0
+  -- index of the step that lets the handler of call k (issued at step i) produce its response
+  -- head: its first release (`A k`); a client-streaming handler answers (its only phase) after
+  -- the `r` request messages as well.  The drain after the script releases everything.
+  let headStep (i k r : Nat) : Nat :=
+    let go := (sc.steps.zipIdx).foldl (fun (acc : Nat × Nat × Option Nat) (st, i') =>
+      match acc with
+      | (_, _, some _) => acc
+      | (a, m, none) =>
+        if i' ≤ i then acc else
+        let a' := match st.op with | .adv k' => if k' == k then a + 1 else a | _ => a
+        let m' := match st.op with | .reqMsg k' => if k' == k then m + 1 else m | _ => m
+        (a', m', if a' ≥ 1 && m' ≥ r then some i' else none)) (0, 0, none)
+    go.2.2.getD sc.steps.length
   let callOps : List (Nat × Nat × Nat × List Spec.Shutdown.Out) := idxd.filterMap fun ((st, g), i) =>
     match st.op with
     | .unary c s => some (i, g, c, Spec.Shutdown.planUnary s)
@@ -428,7 +500,15 @@ def analyse (sc : Script) : List ConnInfo × List CallInfo :=
         | .dropConn c' => c' == c && i' < i
         | _ => false)
     let connOk := match conns[c]? with | some ci => ci.mustAccept | none => false
-    { conn := c, plan := plan, abandoned := droppedEver, mustStart := connOk && !disturbed }
+    -- request messages the response head waits for (client-streaming only)
+    let r := match sc.steps[i]? with
+      | some st => (match st.op with | .cstream _ r _ => r | _ => 0)
+      | none => 0
+    let passed := match sc.timeout with
+      | some d => timeBefore (headStep i k r) - timeBefore i ≥ d
+      | none => false
+    { conn := c, plan := plan, abandoned := droppedEver, mustStart := connOk && !disturbed,
+      deadlinePassed := passed }
   (conns, calls)
 
 open Spec.Shutdown in
@@ -450,8 +530,13 @@ def verdictOf (sc : Script) (o : Obs) : String :=
     let inTime := match doneBy with
       | none => true
       | some r => match ko.doneAt with | some d => d ≤ r | none => false
+    -- the true outcome is the server's "Timeout expired" iff the configured timeout ran out before
+    -- the response head: decided by the script alone for a call that must have started when it
+    -- was issued; where the call may have started later than that (racy steps, a stalled TLS
+    -- client, a connection already told to shut down) either outcome is accepted
     { plan := ki.plan, got := if inTime then gotOf ko else [], started := ko.started,
-      abandoned := ki.abandoned }
+      abandoned := ki.abandoned,
+      timedOut := ki.deadlinePassed && (ki.mustStart || ko.expired) }
   let finalCalls := callViews none
   let served := (cis.zip o.conns).all (fun (ci, co) => !ci.mustAccept || co.accepted)
              && (kis.zip o.calls).all (fun (ki, ko) => !ki.mustStart || ko.started)
